@@ -273,8 +273,16 @@ func GenDecInt(r *sim.Rand) *big.Int {
 
 // tiePair constructs (N, D) such that N*10^36/D truncates to exactly K*10^18 + 5*10^17 (or + 0) with a non-zero remainder:
 // the inputs on which a quotient truncated at 36 digits and then rounded differs from rounding the exact rational.
-func tiePair(r *sim.Rand, wantZero bool) (*big.Int, *big.Int, bool) {
-	if r.Chance(20) && !wantZero {
+func tiePair(r *sim.Rand, wantZero bool) (*big.Int, *big.Int, bool) { return tiePairMode(r, wantZero, false) }
+
+// tiePairMode with below: the 36-digit truncation ends in ...499999999999999999 (one unit below the tie) with a non-zero
+// remainder: a quotient that is off by one unit at the 36th digit (floor instead of truncation for negative operands)
+// lands exactly on the tie and is rounded the other way when K is odd.
+func tiePairMode(r *sim.Rand, wantZero, below bool) (*big.Int, *big.Int, bool) {
+	if below {
+		wantZero = false
+	}
+	if r.Chance(20) && !wantZero && !below {
 		return big.NewInt(1), new(big.Int).Sub(new(big.Int).Mul(two, prec), one), true // 1e-18 / 1.999999999999999999
 	}
 	if r.Chance(20) && wantZero {
@@ -284,7 +292,10 @@ func tiePair(r *sim.Rand, wantZero bool) (*big.Int, *big.Int, bool) {
 		D := new(big.Int).Add(GenBig(r, uint(125+r.Intn(60)), false), prec2)
 		K := big.NewInt(int64(r.Intn(50)))
 		T := new(big.Int).Mul(K, prec)
-		if !wantZero {
+		if below {
+			T.Add(T, half)
+			T.Sub(T, one)
+		} else if !wantZero {
 			T.Add(T, half)
 		} else if K.Sign() == 0 {
 			T.Add(T, prec)
@@ -304,10 +315,14 @@ func CheckDec(r *sim.Rand, rep Reporter) {
 	a, b := GenDecInt(r), GenDecInt(r)
 	directed := false
 	if r.Chance(8) {
-		if n, d, ok := tiePair(r, r.Bool()); ok {
+		below := r.Chance(35)
+		if n, d, ok := tiePairMode(r, r.Bool(), below); ok {
 			a, b, directed = n, d, true
-			if r.Chance(30) {
+			if r.Chance(30) || (below && r.Bool()) {
 				a = new(big.Int).Neg(a)
+			}
+			if below && r.Chance(30) {
+				b = new(big.Int).Neg(b)
 			}
 		}
 	}
